@@ -41,3 +41,35 @@ class Inverse2exp:
                 "euclid(a * n, pow2(t), 1, -pow2(2 * pre_t - t) * idiv(pre_a * n, pow2(pre_t)) * idiv(pre_a * n, pow2(pre_t))"
                 " - idiv(pre_a * (2 - pre_a * n), pow2(t)) * n)"])}
   total = True
+
+
+@contract(f"{NT}::InverseSqrt2exp")
+class InverseSqrt2exp:
+  params = {"n": "int", "k": "int"}
+  returns = "Optional[int]"
+  requires = ["k >= 0"]
+  ensures = [
+      ("C19", "result is None or (result * result * n) % pow2(k) == 1"),
+      ("C19", "implies(k >= 3, (result is None) == (n % 8 != 1))"),
+      ("C19", "implies(k < 3, (result is None) == forall(c, 0, pow2(k), (c * c * n) % pow2(k) != 1))"),
+  ]
+  loops = {
+      0: dict(invariant=["forall(c, 0, a, (c * c * n) % pow2(k) != 1)"]),
+      1: dict(
+          invariant=["t >= 3", "t <= k or t == 3", "(a * a * n) % pow2(t) == 1"],
+          variant="k - t",
+          body_end=[
+              "let P = pow2(pre_t)", "let Q = pow2(t)", "let e = pow2(2 * pre_t - 2 - t)",
+              "let E = pre_a * pre_a * n - 1", "let c = idiv(pre_a * pre_a * n, P)", "let h = idiv(E, 2)",
+              "let q = idiv(idiv(pre_a * (3 - pre_a * pre_a * n), 2), Q)",
+              "pow2_add(t, 2 * pre_t - 2 - t)", "pow2_add(2 * pre_t - 2, 2)", "pow2_add(pre_t, pre_t)",
+              "P * P == 4 * Q * e", "E == P * c", "E == 2 * h",
+              "idiv(pre_a * (3 - pre_a * pre_a * n), 2) == pre_a * (1 - h)",
+              "a == pre_a * (1 - h) - Q * q",
+              "4 * ((pre_a * (1 - h)) * (pre_a * (1 - h)) * n - 1) == E * E * (E - 3)",
+              "(pre_a * (1 - h)) * (pre_a * (1 - h)) * n - 1 == Q * (e * c * c * (E - 3))",
+              "a * a * n == 1 + Q * (e * c * c * (E - 3) - q * n * (2 * pre_a * (1 - h)) + q * q * Q * n)",
+              "euclid(a * a * n, Q, 1, e * c * c * (E - 3) - q * n * (2 * pre_a * (1 - h)) + q * q * Q * n)",
+          ]),
+  }
+  total = True
